@@ -8,19 +8,19 @@ MUT = {
  "M2_maxdef": ("schema.py", "            if element.repetition_type != parquet_thrift.FieldRepetitionType.REQUIRED:\n                max_level += 1",
                "            if element.repetition_type == parquet_thrift.FieldRepetitionType.OPTIONAL:\n                max_level += 1"),
  "M3_null_true_v1": ("core.py", "    return n_opt > 0, defi, max_def - shift", "    return True, defi, max_def - shift"),
- "M4_v2_idx_not_advanced": ("core.py", "                null=null, null_val=False, max_defi=max_def, prev_i=0\n            )\n            idx[0] += data_header2.num_rows\n        elif data_header2.num_nulls:",
-                            "                null=null, null_val=False, max_defi=max_def, prev_i=0\n            )\n        elif data_header2.num_nulls:"),
+ "M4_v2_idx_not_advanced": ("core.py", "                    null=null, null_val=False, max_defi=max_def, prev_i=0\n                )\n            idx[0] += data_header2.num_rows\n        elif data_header2.num_nulls:",
+                            "                    null=null, null_val=False, max_defi=max_def, prev_i=0\n                )\n        elif data_header2.num_nulls:"),
  "M5_kv_swapped": ("core.py", "                    value, key = out[name], maps[name]", "                    key, value = out[name], maps[name]"),
  "M6_maplike_key_optional_ok": ("schema.py", "    if set(se2[\"children\"]) != {'key', 'value'}:\n        return False", "    if set(se2[\"children\"]) != {'key', 'value'}:\n        return True"),
  "M7_c_i_plus_2": ("cencoding.c", "        __pyx_v_i = (__pyx_v_i + 1);", "        __pyx_v_i = (__pyx_v_i + 2);"),
  "M8_c_vali_ge_0": ("cencoding.c", "        __pyx_t_1 = (__pyx_v_vali > 0);", "        __pyx_t_1 = (__pyx_v_vali >= 0);"),
  "M9_maxrep": ("schema.py", "            if element.repetition_type == parquet_thrift.FieldRepetitionType.REPEATED:\n                max_level += 1",
                "            if element.repetition_type == parquet_thrift.FieldRepetitionType.REPEATED and i > 1:\n                max_level += 1"),
- "M10_v2_null_true": ("core.py", "                null=null, null_val=False, max_defi=max_def, prev_i=0\n            )\n            idx[0] += data_header2.num_rows\n        elif data_header2.num_nulls:",
-                      "                null=True, null_val=False, max_defi=max_def, prev_i=0\n            )\n            idx[0] += data_header2.num_rows\n        elif data_header2.num_nulls:"),
+ "M10_v2_null_true": ("core.py", "                    null=null, null_val=False, max_defi=max_def, prev_i=0\n                )\n            idx[0] += data_header2.num_rows\n        elif data_header2.num_nulls:",
+                      "                    null=True, null_val=False, max_defi=max_def, prev_i=0\n                )\n            idx[0] += data_header2.num_rows\n        elif data_header2.num_nulls:"),
  "M11_v2_plain_flat": ("core.py", "    if max_rep and data_header2.encoding == parquet_thrift.Encoding.PLAIN:", "    if False and data_header2.encoding == parquet_thrift.Encoding.PLAIN:"),
  "M12_v2_level_len": ("core.py", "encoding.read_rle_bit_packed_hybrid(io_obj, bit_width, data_header2.repetition_levels_byte_length,", "encoding.read_rle_bit_packed_hybrid(io_obj, bit_width, data_header2.num_values,"),
- "M13_d_flag": ("core.py", "                assign, ldefi, rep, val, dic, d,\n", "                assign, ldefi, rep, val, dic, False,\n"),
+ "M13_d_flag": ("core.py", "                    assign, ldefi, lrep, lval, dic, d,\n", "                    assign, ldefi, lrep, lval, dic, False,\n"),
  "M14_listlike_drop_repeated_check": ("schema.py", "    if se2.repetition_type != parquet_thrift.FieldRepetitionType.REPEATED:\n        return False\n    se3 = list(se2[\"children\"].values())[0]", "    se3 = list(se2[\"children\"].values())[0]"),
  "M15_c_de_ge_null": ("cencoding.c", "    __pyx_t_1 = (__pyx_v_de > __pyx_v_null);", "    __pyx_t_1 = (__pyx_v_de >= __pyx_v_null);"),
  "M16_name_path": ("core.py", "            name = \".\".join(column.meta_data.path_in_schema[:-2])", "            name = \".\".join(column.meta_data.path_in_schema[:-1])"),
